@@ -369,6 +369,30 @@ def loop_assigned(fn, per_loop=None):
     return total
 
 
+ENTRY = '\u00b0'      # suffix of the symbol for "value of a tracked field on entry", once the field was assigned
+
+
+def base_term(k):
+    """name of the variable / path a symbolic term stands for (loop, call-site and entry markers removed)"""
+    return k.split('@')[0].split('#')[0].rstrip(ENTRY)
+
+
+def _ren(x, old, new):
+    if isinstance(x, Lin):
+        if old in x.t:
+            t = dict(x.t)
+            t[new] = t.get(new, 0) + t.pop(old)
+            return Lin(t, x.c)
+        return x
+    if isinstance(x, tuple):
+        return tuple(_ren(y, old, new) for y in x)
+    return x
+
+
+def rename_term(ts, old, new):
+    return frozenset(_ren(x, old, new) for x in ts)
+
+
 class SymRule(FactRule):
     """Typestate = frozenset of (key, Lin): flow-sensitive linear values of
     locals (key ('v', decl id)) and of selected struct fields assigned in the
@@ -429,9 +453,22 @@ class SymRule(FactRule):
             key = ('f', pstr(lhs))
         else:
             return self.sym_assign(ctx, lhs, rhs, op, ts)
+        first = False
+        if key[0] == 'f':
+            # From here on the plain path means the field's *current* value.  Everything stored so far that mentions
+            # the plain path meant the value on entry: rename it to the entry symbol (path + ENTRY), so that a
+            # local holding the entry value is not rewritten by the substitution in value().
+            _, fields0 = self.env_of(ts)
+            first = key[1] not in fields0
+
+        def val(e):
+            v = self.value(e, ts)
+            if v is not None and first:
+                v = _ren(v, key[1], key[1] + ENTRY)      # in the right-hand side the plain path is still the entry value
+            return v
         new = None
         if op == '=' and rhs is not None:
-            new = self.value(rhs, ts)
+            new = val(rhs)
         elif op in ('+=', '-=') and rhs is not None:
             if key[0] == 'v':
                 env, _ = self.env_of(ts)
@@ -442,8 +479,8 @@ class SymRule(FactRule):
                 _, fields = self.env_of(ts)
                 cur = fields.get(key[1])
                 if cur is None:
-                    cur = Lin({key[1]: 1})     # value on entry
-            d = self.value(rhs, ts)
+                    cur = Lin({key[1] + ENTRY: 1})     # value on entry
+            d = val(rhs)
             if cur is not None and d is not None:
                 new = cur + d if op == '+=' else cur - d
         elif op in ('++', '--'):
@@ -453,6 +490,8 @@ class SymRule(FactRule):
                 cur = Lin({l.op: 1})
             if cur is not None:
                 new = cur + Lin(None, 1 if op == '++' else -1)
+        if first:
+            ts = rename_term(ts, key[1], key[1] + ENTRY)
         if new is None and key[0] == 'f':
             # a tracked field with a value the analysis cannot express: fresh symbol, never the entry value
             new = Lin({'%s#%d' % (key[1], getattr(ctx.node, 'line', 0)): 1})
